@@ -70,13 +70,22 @@ class Harness:
             if prior[1] != k:
                 fails.append({"sub": "repeat", "kind": "verdict-changed-on-repeat", "value": value,
                               "detail": [prior[1], k]})
-            elif k == "ok" and not observe.plain_eq(prior[2], p):
+            elif k == "ok" and not (observe.plain_eq(prior[2], p) and self._py_equal(prior[3], got[1])):
+                # "an equal result": Python equality of the two returned objects (a model instance is
+                # not equal to an untyped dict, nor to an instance of another class) and equal read-back
                 fails.append({"sub": "repeat", "kind": "result-changed-on-repeat", "value": value,
-                              "detail": [canon(prior[2]), canon(p)]})
+                              "detail": [canon(prior[2]), canon(p), type(prior[3]).__name__, type(got[1]).__name__]})
         else:
-            self.calls.append((copy.deepcopy(value), k, p))
+            self.calls.append((copy.deepcopy(value), k, p, got[1] if k == "ok" else None))
         fails.extend(self.invariants(value))
         return fails
+
+    @staticmethod
+    def _py_equal(a, b):
+        try:
+            return bool(a == b) and bool(b == a)
+        except Exception:  # noqa: BLE001
+            return False
 
     def invariants(self, value=None):
         fails = []
@@ -97,7 +106,40 @@ class Harness:
 
 
 def values_strategy(schema):
-    return values_for(schema, 1, 1).map(lambda vs: vs[0])
+    return st.one_of(values_for(schema, 1, 1).map(lambda vs: vs[0]), values_for(schema, 1, 1).map(lambda vs: vs[0]),
+                     st.sampled_from(OVERLAP_VALUES))
+
+
+@st.composite
+def overlapping_anyof(draw):
+    """anyOf whose alternatives accept common values but build them differently, plus values that only the
+    later alternative accepts (so that "which branch built the previous value" could leak into the next)."""
+    first = draw(st.sampled_from([
+        {"id": 2, "kind": "Object", "kw": {}, "name": "Box", "props": [
+            {"name": "size", "source": None, "required": False, "element": {"id": 3, "kind": "Integer", "kw": {"default": 1}}},
+            {"name": "kind", "source": None, "required": False, "element": {"id": 4, "kind": "String", "kw": {}}}]},
+        {"id": 2, "kind": "Integer", "kw": {}},
+        {"id": 2, "kind": "Array", "kw": {}, "sub": {"items": {"id": 3, "kind": "Number", "kw": {}}}},
+    ]))
+    second = draw(st.sampled_from([
+        {"id": 5, "kind": "Object", "kw": {}, "name": "Shape", "props": [
+            {"name": "colour", "source": None, "required": False, "element": {"id": 6, "kind": "String", "kw": {"default": "red"}}},
+            {"name": "kind", "source": None, "required": False, "element": {"id": 7, "kind": "Element", "kw": {}}}]},
+        {"id": 5, "kind": "Element", "kw": {}},
+        {"id": 5, "kind": "Number", "kw": {}},
+        {"id": 5, "kind": "Array", "kw": {}, "sub": {"items": {"id": 6, "kind": "Element", "kw": {}}}},
+    ]))
+    kind = draw(st.sampled_from(["AnyOf", "AnyOf", "OneOf"]))
+    node = {"id": 1, "kind": kind, "kw": {}, "elements": [first, second]}
+    if draw(st.integers(0, 2)) == 0:
+        node = {"id": 9, "kind": "Element", "kw": {}, "props": [
+            {"name": "p", "source": None, "required": False, "element": node}]}
+    return node
+
+
+OVERLAP_VALUES = [{"kind": "box"}, {"kind": 5}, {"size": 2, "kind": "x"}, {"colour": "blue"}, 1, 1.5, 2, [1, 2],
+                  [1, "a"], {}, "s", {"size": "big"}, {"p": {"kind": "box"}}, {"p": {"kind": 5}}, {"p": 1},
+                  {"p": 1.5}, {"p": [1]}, {"p": ["a"]}]
 
 
 class Machine(RuleBasedStateMachine):
@@ -108,7 +150,8 @@ class Machine(RuleBasedStateMachine):
         super().__init__()
         self.h = None
 
-    @initialize(recipe=R.recipes(R.RCfg(depth=3)))
+    @initialize(recipe=st.one_of(R.recipes(R.RCfg(depth=3)), R.recipes(R.RCfg(depth=3)), R.recipes(R.RCfg(depth=3)),
+                                 overlapping_anyof()))
     def init(self, recipe):
         self.h = Harness(recipe)
         self.schema = R.to_schema(recipe)
@@ -127,6 +170,9 @@ class Machine(RuleBasedStateMachine):
     @rule(data=st.data())
     def call(self, data):
         self._do({"op": "call", "value": data.draw(values_strategy(self.schema))})
+        if self.h is not None and len(self.h.calls) > 1 and data.draw(st.booleans()):
+            # ... and an earlier value again: state left behind by the call in between must not matter
+            self._do({"op": "repeat", "index": data.draw(st.integers(0, len(self.h.calls) - 2))})
 
     @precondition(lambda self: self.h is not None and self.h.calls)
     @rule(index=st.integers(0, 30))
